@@ -1614,6 +1614,49 @@ def failed_cleanup_keeps_queue_order(ctx, p):
             w = b.find_path([e], b.return_blocks(), removed=set(back))
             if w is not None:
                 bad = bad or (x, w)
+    # what goes back is "everything from position `done` on": a counter that splits the taken logs into cleaned / not cleaned may
+    # move past a log only after that log's truncation succeeded (counting it first sends the log whose truncation FAILED to the pool)
+    counters = set()
+    for x in back:
+        t = b.term(x)
+        if t['k'] != 'call':
+            continue
+        for a in t['a']:
+            if op_place(a) is None:
+                continue
+            sl = backward_slice(b, [op_place(a)])
+            for l in sl.locals:
+                if l < len(b.locals) and str(b.locals[l]) in ('usize', 'u32', 'u64', 'i32', 'i64', 'isize'):
+                    counters.add(l)
+    incs = []
+    for l in sorted(counters):
+        for d in b.defs().get(l, []):
+            if d[2] != 'assign':
+                continue
+            r = d[3]['r']
+            src = None
+            if r['k'] == 'bin' and r['op'] in ('Add', 'AddWithOverflow', 'AddUnchecked'):
+                src = r
+            elif r['k'] == 'use' and op_place(r['a'][0]) is not None and len(op_place(r['a'][0])) == 2:
+                dd = [y for y in b.defs().get(op_place(r['a'][0])[0], []) if y[2] == 'assign' and y[3]['r']['k'] == 'bin' and y[3]['r']['op'] in ('Add', 'AddWithOverflow')]
+                src = dd[0][3]['r'] if len(dd) == 1 else None
+            if src and any(op_place(a) == [l] for a in src['a']) and any('i' in a for a in src['a']):
+                incs.append((l, d[0]))
+    for lp in lib.for_loops_over(b):
+        region = b.reachable_from([lp['some']], removed={lp['head']})
+        for l, blk in incs:
+            if blk not in region:
+                continue
+            inloop_io = [x for x in io if x in region]
+            w = b.find_path([lp['some']], {blk}, removed=set(inloop_io) | {lp['head']})
+            if w is None:
+                # after the call, only on its success edge
+                for x in inloop_io:
+                    for e in lib.result_err_targets(b, x):
+                        w = w or b.find_path([e], {blk}, removed={lp['head']})
+            ctx.ob(p + 'q2 log-counted-as-cleaned-only-after-its-truncation', 'K2-order', b.path,
+                   'the position that separates the cleaned logs from those that go back onto the queue moves past a log only after the truncation of that log succeeded',
+                   w is None, '' if w is None else 'the log is counted before / without its truncation: ' + lib.short_path(b, w), b.loc(blk))
     ctx.ob(p + 'q failed-cleanup-requeues-uncleaned-logs', 'K1-must-pass', b.path,
            'if truncating / syncing a log fails after logs were taken off the cleanup queue, the logs not cleaned are put back onto the queue before the error is returned',
            bad is None, '' if bad is None else 'error of %s returns with the taken logs forgotten: %s' % (b.term(bad[0]).get('r') or b.term(bad[0]).get('f'), lib.short_path(b, bad[1])), b.loc(take[0]))
@@ -2272,6 +2315,8 @@ def borrow(ctx, modname, key_start, new_key):
     if not hit:
         ctx.ob(new_key, 'anchor', '-', 'obligation %s of %s exists' % (key_start, modname), False, 'not produced on this tree')
         return
+    # (several instances under one key prefix: the borrowed obligation holds if all of them do; a failing one is shown)
+    hit = sorted(hit, key=lambda o: o[4])
     for key, rule, fn, desc, ok, detail, loc in hit[:1]:
         ctx.ob(new_key, rule, fn, desc, ok, detail, loc)
 
